@@ -9,7 +9,7 @@ ID = 'C19'
 SHARDS = {'quick': 2, 'thorough': 8}
 BUDGET = {'quick': 120, 'thorough': 900}
 RULE = ("cases: a random shape (curve/surface/volume, rational or not) and a partner built independently that differs in "
-        "exactly one component by >= 1e-6*scale (one control coordinate, one weight, one interior knot, degree, size, "
+        "exactly one component by >= 1e-6*scale (one control coordinate, one weight, one interior knot, a whole knot vector rescaled or shifted, degree, size, "
         "rationality, parametric dimension) or in nothing; judged: reflexive, symmetric, != is the negation, deepcopy "
         "equals source, unequal iff a component differs. Non-trivial: every case (each has a differing or an identical "
         "partner and >= 6 comparisons); distinct = distinct case hash.")
@@ -17,14 +17,14 @@ ASSUMPTIONS = ["differences below 1e-12 are never generated, so the unspecified 
 FLOORS = {'quick': {'reflexive': 300, 'symmetric': 300, 'copy-equal': 300, 'rebuilt-equal': 300, 'differs': 250,
                     'ne-consistent': 600},
           'thorough': {'differs': 2500}}
-MANDATORY_TAGS = ['mut:coord', 'mut:weight', 'mut:knot', 'mut:degree', 'mut:size', 'mut:rational', 'mut:pdim', 'mut:none', 'mut:hom_w', 'via-copy', 'mixed-precision',
+MANDATORY_TAGS = ['mut:coord', 'mut:weight', 'mut:knot', 'mut:degree', 'mut:size', 'mut:rational', 'mut:pdim', 'mut:none', 'mut:hom_w', 'mut:knot-vector-rescaled', 'via-copy', 'mixed-precision',
                   'pdim1', 'pdim2', 'pdim3', 'emptied:reset']
 TECHNIQUE = "runtime monitoring: metamorphic oracle on == / != of live shape objects over generated one-component mutations"
 LEVEL_TEXT = ("Each generated pair is compared in both directions with == and != and against the known difference between the "
               "two definitions; holds on the pairs observed.")
 
 MUTS = ['coord', 'weight', 'knot', 'degree', 'size', 'rational', 'pdim', 'none', 'none', 'coord', 'knot_unnorm', 'coord_last',
-        'hom_w', 'knot_dir0']
+        'hom_w', 'knot_dir0', 'knot_affine']
 
 
 def gen(rng, tier, shard, nshards):
@@ -33,7 +33,7 @@ def gen(rng, tier, shard, nshards):
         pdim = rng.choice([1, 1, 2, 2, 3])
         mut = MUTS[i % len(MUTS)]
         rational = True if mut in ('weight', 'hom_w') else None
-        sd = G.rand_shape(rng, pdim, rational=rational, clamped_only=True, normalize=(mut != 'knot_unnorm'),
+        sd = G.rand_shape(rng, pdim, rational=rational, clamped_only=True, normalize=(mut not in ('knot_unnorm', 'knot_affine')),
                           maxextra=4)
         yield {'kind': 'pair', 'sd': sd, 'mut': mut, 'seed': rng.randrange(1 << 30)}
         if i % 4 == 2:
@@ -69,6 +69,19 @@ def mutate(sd, mut, rng):
         if abs(new - kv[i]) < 1e-4 * (kv[-1] - kv[0]):
             raise Reject()
         kv[i] = new
+    elif mut == 'knot_affine':
+        # shapes which keep their knot vectors as given: the whole knot vector of one direction scaled and/or shifted is another
+        # parametrisation (every knot but possibly one differs), whichever of the two is the raw one
+        d = rng.randrange(b['pdim'])
+        kv = b['kvs'][d]
+        sc, sh = rng.choice([(2.0, 0.0), (1.0, 1.0), (0.5, -0.25), (10.0, 0.0), (1.0, -(kv[-1] - kv[0]))])
+        b['kvs'][d] = [sc * k + sh * (kv[-1] - kv[0]) for k in kv]
+        if rng.random() < 0.3:
+            b['normalize_kv'] = True
+            b['kvs'][d] = [(k - kv[0]) / (kv[-1] - kv[0]) * 1.0 for k in kv]
+            if max(abs(x - y) for x, y in zip(b['kvs'][d], kv)) < 1e-4:
+                b['normalize_kv'] = False
+                b['kvs'][d] = [2.0 * k for k in kv] if kv[-1] != 0.0 else [2.0 * k - 1.0 for k in kv]
     elif mut == 'degree':
         d = rng.randrange(b['pdim'])
         p, n = b['degrees'][d], b['sizes'][d]
@@ -223,9 +236,11 @@ def check(case, ctx):
         else:
             b.set_ctrlpts(pw, *sd['sizes'])
     ctx.nontriv(True)
-    ctx.tag('mut:' + {'knot_unnorm': 'knot', 'knot_dir0': 'knot', 'coord_last': 'coord', 'hom_w': 'weight'}.get(mut, mut), 'pdim%d' % sd['pdim'])
+    ctx.tag('mut:' + {'knot_unnorm': 'knot', 'knot_dir0': 'knot', 'knot_affine': 'knot', 'coord_last': 'coord', 'hom_w': 'weight'}.get(mut, mut), 'pdim%d' % sd['pdim'])
     if mut == 'hom_w':
         ctx.tag('mut:hom_w')
+    if mut == 'knot_affine':
+        ctx.tag('mut:knot-vector-rescaled')
     # reflexive, copy
     ctx.check((a == a) is True and (b == b) is True, 'reflexive', 'a == a is not True', what='reflexive')
     ac = copy.deepcopy(a)
@@ -242,10 +257,10 @@ def check(case, ctx):
     if mut == 'none':
         ctx.check(ab is True, 'equal-rejected', 'identical definitions compare unequal', what='rebuilt-equal')
     else:
-        ctx.check(ab is False and ba is False, 'differs/%s' % {'knot_unnorm': 'knot', 'knot_dir0': 'knot', 'coord_last': 'coord', 'hom_w': 'weight'}.get(mut, mut),
+        ctx.check(ab is False and ba is False, 'differs/%s' % {'knot_unnorm': 'knot', 'knot_dir0': 'knot', 'knot_affine': 'knot', 'coord_last': 'coord', 'hom_w': 'weight'}.get(mut, mut),
                   'shapes differing in one %s compare equal' % mut, what='differs')
     # ---- the same difference produced by editing a DEEP COPY through the public setters (copy, edit, compare) -------------------
-    if mut in ('coord', 'coord_last', 'weight', 'degree', 'knot', 'knot_unnorm', 'knot_dir0') and bsd['pdim'] == sd['pdim'] and \
+    if mut in ('coord', 'coord_last', 'weight', 'degree', 'knot', 'knot_unnorm', 'knot_dir0', 'knot_affine') and bsd.get('normalize_kv', True) == sd.get('normalize_kv', True) and bsd['pdim'] == sd['pdim'] and \
             bsd['sizes'] == sd['sizes']:
         ctx.tag('via-copy')
         c = copy.deepcopy(a)
@@ -285,7 +300,7 @@ def check(case, ctx):
         else:
             c.ctrlpts = [list(p) for p in bsd['ctrlpts']]
         ca, ac = (c == a), (a == c)
-        ctx.check(ca is False and ac is False, 'differs-after-editing-copy/%s' % {'knot_unnorm': 'knot', 'knot_dir0': 'knot', 'coord_last': 'coord'}.get(mut, mut),
+        ctx.check(ca is False and ac is False, 'differs-after-editing-copy/%s' % {'knot_unnorm': 'knot', 'knot_dir0': 'knot', 'knot_affine': 'knot', 'coord_last': 'coord'}.get(mut, mut),
                   'a deep copy edited through the public setters (%s) still compares equal to its source' % mut, what='differs')
         # (rational shapes: P*w/w*w' differs from P*w' by an ulp and the comparison tolerance is 1e-18, so only exact paths are judged)
         if not sd['rational'] or mut in ('degree',) or mut.startswith('knot'):
